@@ -332,6 +332,23 @@ func c08Check(re *regexp2.Regexp, cre *compat.Regexp, s string) *Violation {
 			}
 		}
 	}
+	// the whole find-all list (both directions) equals the byte spans of the chain's elements, taken from off[]
+	if m2 != nil {
+		ch := walkChain(re, m2, nil, len(R))
+		if ch.err == "" && !ch.nterm {
+			want := findAllExpected(ch.ms, -1, re.RightToLeft())
+			all, err := re.FindAllStringIndex(s, -1)
+			bad := err != nil || len(all) != len(want)
+			for i := 0; !bad && i < len(want); i++ {
+				if len(all[i]) != 2 || all[i][0] != off[want[i][0]] || all[i][1] != off[want[i][1]] {
+					bad = true
+				}
+			}
+			if bad {
+				return viob("byte-consistency", s, "FindAllStringIndex(-1)=%v err=%v; the chain's elements (runes) %v have the byte offsets %v", all, err, want, off)
+			}
+		}
+	}
 	// consistency with the byte indexes of the find-all and adapter calls
 	if !re.RightToLeft() && m1 != nil {
 		bi, bl := m1.ByteRange()
